@@ -204,10 +204,22 @@ def _ptg_arms(F, name):
     return fn, out
 
 
+_SIB_IMAP = {}
+
+
 def _role(e):
     fc = field_chain(e)
     if not fc or fc[1]:
         return None
+    pl = path_local(peel(e))
+    seen = 0
+    while pl and pl[1] in _SIB_IMAP and seen < 4:      # parameter of an inlined helper: the role of the argument
+        e = _SIB_IMAP[pl[1]]
+        fc = field_chain(e)
+        if not fc or fc[1]:
+            return None
+        pl = path_local(peel(e))
+        seen += 1
     t = (peel(e).get("ty") or "").replace("&mut ", "").replace("&", "")
     if t == "alloc::vec::Vec<usize>":
         return "stack"
@@ -231,7 +243,9 @@ def stack_events(node, out_name="formula"):
             rec(n["recv"])
             rec(n["args"])
             r = _role(n["recv"])
-            if r == "stack":
+            if r == "stack" and n["name"] in ("windows", "iter", "iter_mut", "len", "is_empty", "as_slice", "get", "first", "chunks", "into_iter", "as_mut_slice"):
+                pass        # reads and traversals do not change the discipline
+            elif r == "stack":
                 ev.append("stack." + n["name"])
             elif r == "out:" + out_name:
                 nm = "append" if n["name"] in _APPEND else n["name"]
@@ -258,6 +272,10 @@ def r_sib_ptg(ctx, rep):
     if fa is None or fb is None:
         rep.anchor_missing("R-SIB-PTG", "xls::parse_formula / xlsb::parse_formula")
         return
+    from .kit import inl_params
+    _SIB_IMAP.clear()
+    _SIB_IMAP.update(inl_params(fa.body))
+    _SIB_IMAP.update(inl_params(fb.body))
     for ks in sorted(A):
         if ks not in B:
             continue
@@ -929,19 +947,26 @@ def r_lenguard(ctx, rep):
     the smallest well-formed record (a one-character string result, a one-cell MULRK)."""
     n = 0
     F = ctx.facts("default")
+    from .kit import inl_params
     for fn in F.fns_in("src/xls.rs", "src/xlsb/mod.rs", "src/xlsb/cells_reader.rs"):
         cnt = 0
+        imap = inl_params(fn.body)
+
+        def res(e):
+            """look through a parameter of an inlined helper (check_len(found, expected, ..))"""
+            pl = path_local(e)
+            return imap[pl[1]] if pl and pl[1] in imap else e
         for i in walk_k(fn.body, "If"):
             structs = [x for x in walk_k(i["then"], "Struct") if (norm(x.get("res", {}).get("ctor_of") or x.get("res", {}).get("def")) or "").endswith("Error::Len")]
             if not structs:
                 continue
             st = structs[0]
             fields = {f["name"]: f["e"] for f in st.get("fields", [])}
-            exp = lit_value(fields.get("expected")) if "expected" in fields else None
+            exp = lit_value(res(fields.get("expected"))) if "expected" in fields else None
             cond = unwrap(i["cond"])
             if not isinstance(exp, int) or cond.get("k") != "Binary" or cond.get("op") not in ("<", "<=", ">", ">=", "!=", "=="):
                 continue
-            l, r = unwrap(cond["l"]), unwrap(cond["r"])
+            l, r = unwrap(res(cond["l"])), unwrap(res(cond["r"]))
             lenside, const, op = None, None, cond["op"]
             if l.get("k") == "MethodCall" and l.get("name") == "len" and isinstance(lit_value(r), int):
                 lenside, const = l, lit_value(r)
@@ -1559,6 +1584,26 @@ def r_names1to1(ctx, rep):
             rep.violation("R-NAMES1TO1", key, loc(l), "the defined-name list is rebuilt with `%s`: entries can be dropped or moved, so every later name changes its record number (a PtgName then shows another name or #REF!) and defined_names() no longer lists every name" % ", ".join(bad))
         else:
             rep.holds("R-NAMES1TO1", key, loc(l), "rebuilt one-to-one (%s)" % " . ".join(reversed(chain)))
+    if n == 0:
+        # loop form: `for (name, (ixti, f)) in defined_names { ..; out.push((name, f)); }`
+        from .kit import for_loops, body_stmts
+        for it, pat, body, node in for_loops(fn.body):
+            root = peel(it)
+            while isinstance(root, dict) and root.get("k") == "MethodCall":
+                root = peel(root["recv"])
+            rl = path_local(root) if isinstance(root, dict) else None
+            if not rl or rl[0] != "defined_names":
+                continue
+            n += 1
+            key = "xls::Xls::parse_workbook|R-NAMES1TO1|#%d" % n
+            top = [st for st in body_stmts(body)]
+            top_pushes = [st for st in top if unwrap(st.get("e") or {}).get("k") == "MethodCall" and unwrap(st["e"]).get("name") == "push"]
+            all_pushes = [c for c in walk_k(body, "MethodCall") if c.get("name") == "push" and (peel(c["recv"]).get("ty") or "").startswith("alloc::vec::Vec<(alloc::string::String")]
+            leaves = [x for x in walk(body) if x.get("k") in ("Continue", "Break", "Ret") and not x["span"].get("desugar")]
+            if len(top_pushes) == 1 and len(all_pushes) <= 1 and not leaves:
+                rep.holds("R-NAMES1TO1", key, loc(node), "rebuilt one-to-one (one unconditional push per defined name)")
+            else:
+                rep.violation("R-NAMES1TO1", key, loc(node), "the loop that rebuilds the defined-name list does not push exactly one entry per name (unconditional pushes: %d, pushes: %d, early exits: %d): later names change their record number" % (len(top_pushes), len(all_pushes), len(leaves)))
     rep.floor("R-NAMES1TO1", 1, "the sheet-prefixing pass over defined_names")
 
 
